@@ -2,6 +2,7 @@ package nc
 
 import (
 	"fmt"
+	"go/constant"
 	"go/token"
 	"strings"
 
@@ -102,6 +103,28 @@ func (r *Run) c09ExpectedOffspring() {
 	}
 	l := InnermostLoop(Loops(fn), st.Block())
 	okAll := l != nil && loopRangesOver(tm, l, "recv.Organisms")
+	// the quotient is withheld only for a zero mean: any other cut-off leaves stale expectations in place
+	// for populations whose (shared, penalised) fitness values are merely small
+	if ok {
+		mean := vt.Args[1].String()
+		okGuard, why := true, ""
+		for _, g := range Guards(st.Block()) {
+			if l != nil && l.Blocks[g.At] {
+				continue
+			}
+			gt := tm.Of(g.Cond)
+			if gt.Op != "bin" || !strings.Contains(gt.String(), mean) {
+				continue
+			}
+			zero := gt.Args[1].String() == "0" && gt.Args[0].String() == mean
+			switch {
+			case zero && gt.Name == "!=" && g.True, zero && gt.Name == "==" && !g.True, zero && gt.Name == ">" && g.True, zero && gt.Name == "<=" && !g.True:
+			default:
+				okGuard, why = false, gt.String()
+			}
+		}
+		r.Check(okGuard, "expected-offspring.guard", p.Pos(st.Pos()), "computed whenever the mean fitness is not zero", "the expected offspring are computed only under `"+why+"`; the definition excludes nothing but a zero mean, so for small positive fitness values the organisms keep stale expectations and the quotas no longer follow the fitness")
+	}
 	r.Check(ok && okMean && okAll, "expected-offspring.formula", p.Pos(st.Pos()), "ExpectedOffspring = Fitness / (sum of Fitness / number of organisms), for every organism",
 		fmt.Sprintf("an organism's expected offspring is %s; expected its fitness divided by the mean fitness of all organisms, for every organism (shape ok=%v mean ok=%v all organisms=%v)", vt, ok, okMean, okAll))
 }
@@ -216,6 +239,7 @@ func (r *Run) c09AdjustFitness(boundOnly bool) {
 		r.Check(okB, "adjustFitness.marking-in-bounds", p.Pos(fn.Pos()), "marks Organisms[c] only while c < len(Organisms)", "the loop that marks organisms for elimination is not bounded by the length of the organism list: a survival threshold of 1.0 makes the epoch fail")
 		return
 	}
+	r.c09Stagnation(fn, tm, loops)
 	r.Check(okParents, "adjustFitness.parent-count", p.Pos(fn.Pos()), "parents = int(floor(SurvivalThresh * n + 1))", "the number of organisms that remain available as parents is not int(floor(SurvivalThresh*n + 1))")
 	r.Check(okMark, "adjustFitness.marking", p.Pos(fn.Pos()), "exactly the positions parents, parents+1, ..., n-1 are marked", "the organisms marked for elimination are not exactly those at positions >= the parent count")
 	r.Check(okOrder, "adjustFitness.sorted-first", p.Pos(fn.Pos()), "the list is sorted best-first after the fitness update and before the marking", "the organisms are not sorted best-first between the fitness update and the marking: the wrong organisms are eliminated")
@@ -348,4 +372,117 @@ func (r *Run) c09CountOffspring() {
 		}
 	}
 	r.Check(okInit && okQ0 && okRet, "countOffspring.frame", p.Pos(fn.Pos()), "starts from quota 0 and the fraction handed in, returns both", "countOffspring does not start from (0, carried fraction) or does not return (quota, fraction)")
+}
+
+// c09Stagnation: the stagnation penalty (fitness * 0.01) applies exactly when
+// Age - AgeOfLastImprovement + 1 >= DropOffAge. The condition is normalised to
+// an integer-linear "L >= 0" and compared with that expression; the repository's
+// `debt := X; if debt == 0 { debt = 1 }; if debt >= 1` form is recognised as X >= 0.
+func (r *Run) c09Stagnation(fn *ssa.Function, tm *Termer, loops []*Loop) {
+	p := r.P
+	fit := p.Field(PkgG, "Organism", "Fitness")
+	li := p.Func(PkgG, "Species.lastImproved")
+	inline := func(c *ssa.Call) (Lin, bool) {
+		if c.Call.StaticCallee() != li {
+			return Lin{}, false
+		}
+		// the getter must be Age - AgeOfLastImprovement of its receiver
+		tl := NewTermer(li)
+		for _, b := range li.Blocks {
+			if ret, ok := b.Instrs[len(b.Instrs)-1].(*ssa.Return); ok {
+				if tl.Of(ret.Results[0]).String() != "(recv.Age-recv.AgeOfLastImprovement)" {
+					return Lin{}, false
+				}
+			}
+		}
+		if tm.Of(c.Call.Args[0]).Op != "recv" {
+			return Lin{}, false
+		}
+		return linAtom("recv.Age").Add(linAtom("recv.AgeOfLastImprovement"), -1), true
+	}
+	want := linAtom("recv.Age").Add(linAtom("recv.AgeOfLastImprovement"), -1).Add(linConst(1), 1).Add(linAtom("p1.DropOffAge"), -1)
+	var pen *ssa.Store
+	for _, st := range FieldStores(fn, fit) {
+		vt := tm.Of(st.Val)
+		if vt.Op == "bin" && vt.Name == "*" && (vt.Args[1].String() == "0.01" || vt.Args[0].String() == "0.01") {
+			pen = st
+		}
+	}
+	if pen == nil {
+		r.Bad("adjustFitness.stagnation", p.Pos(fn.Pos()), "no stagnation penalty (fitness * 0.01) found in adjustFitness")
+		return
+	}
+	var conds []Guard
+	for _, g := range Guards(pen.Block()) {
+		if l := InnermostLoop(loops, g.At); l != nil && g.At == l.Header {
+			continue // the range condition of the organism loop
+		}
+		conds = append(conds, g)
+	}
+	if len(conds) != 1 {
+		r.Bad("adjustFitness.stagnation", p.Pos(pen.Pos()), fmt.Sprintf("the stagnation penalty is applied under %d conditions; expected the single test of the species' stagnation period against DropOffAge", len(conds)))
+		return
+	}
+	g := conds[0]
+	cmp, ok := g.Cond.(*ssa.BinOp)
+	if !ok {
+		r.Bad("adjustFitness.stagnation", p.Pos(pen.Pos()), "the condition of the stagnation penalty is not an integer comparison: "+tm.Of(g.Cond).String())
+		return
+	}
+	var got Lin
+	decided := false
+	if ph, isPhi := cmp.X.(*ssa.Phi); isPhi && len(ph.Edges) == 2 {
+		// debt = X, replaced by a constant c when X == 0
+		for i := 0; i < 2; i++ {
+			c, isC := ph.Edges[i].(*ssa.Const)
+			x := ph.Edges[1-i]
+			if !isC || c.Value == nil || c.Value.Kind() != constant.Int {
+				continue
+			}
+			zeroGuard := false
+			for _, pg := range append(Guards(ph.Block().Preds[i]), Guard{}) {
+				if pg.Cond == nil {
+					continue
+				}
+				if b, ok := pg.Cond.(*ssa.BinOp); ok && b.Op == token.EQL && pg.True && b.X == x {
+					if k, ok := b.Y.(*ssa.Const); ok && k.Value != nil && k.Int64() == 0 {
+						zeroGuard = true
+					}
+				}
+			}
+			if !zeroGuard {
+				continue
+			}
+			lx := linStatic(tm, x, inline, 0)
+			ly := linStatic(tm, cmp.Y, inline, 0)
+			onX, ok1 := ineqAsLin(cmp.Op, lx, ly, g.True)                  // cond(X) as L>=0
+			onC, ok2 := ineqAsLin(cmp.Op, linConst(c.Int64()), ly, g.True) // cond(c)
+			if !ok1 || !ok2 || len(onC.T) != 0 {
+				continue
+			}
+			// onX = X - k >= 0
+			k := lx.Add(onX, -1) // k as Lin (constant expected)
+			if len(k.T) != 0 {
+				continue
+			}
+			switch {
+			case onC.C >= 0 && k.C == 1: // X == 0 included, X >= 1 included  =>  X >= 0
+				got, decided = lx, true
+			case k.C <= 0: // X >= k already contains 0
+				got, decided = onX, true
+			case onC.C < 0: // the replacement never satisfies the test: X >= k, X != 0
+				got, decided = onX, true
+			}
+		}
+	} else {
+		lx := linStatic(tm, cmp.X, inline, 0)
+		ly := linStatic(tm, cmp.Y, inline, 0)
+		got, decided = ineqAsLin(cmp.Op, lx, ly, g.True)
+	}
+	if !decided {
+		r.Bad("adjustFitness.stagnation", p.Pos(pen.Pos()), "the condition of the stagnation penalty could not be brought to the form L >= 0: "+tm.Of(g.Cond).String())
+		return
+	}
+	r.Check(got.Equal(want), "adjustFitness.stagnation", p.Pos(pen.Pos()), "penalty exactly when Age - AgeOfLastImprovement + 1 - DropOffAge >= 0",
+		"the stagnation penalty applies when "+got.String()+" >= 0; the age adjustment is defined as Age - AgeOfLastImprovement + 1 - DropOffAge >= 0 ("+want.String()+"), so species are penalised a generation early or late and every quota derived from the adjusted fitness shifts")
 }
